@@ -236,8 +236,9 @@ package keeper
 //@ func (k Keeper).GetWithdrawalQueryId(withdrawalId) (queryId, err)
 //@ ensures [query_id_is_keccak_of_TRBBridge_false_and_the_withdrawal_id] err == nil ==> bytes(queryId) == keccak(abienc("string,bytes", "TRBBridge", abienc("bool,uint256", false, withdrawalId)))
 
+// No bound on the amount is assumed: math.Int.Uint64 panics for an amount of 2^64 loya or more (the transaction is
+// refused), so whenever the function returns, the value carries the whole amount -- a silent truncation would not.
 //@ func (k Keeper).GetWithdrawalReportValue(amount, sender, recipient) (value, err)
-//@ requires [amount_fits_uint64] 0 <= amount.Amount && amount.Amount < 18446744073709551616
 //@ ensures [report_value_encodes_recipient_sender_amount_and_zero_tip] err == nil ==> bytes(value) == abienc("address,string,uint256,uint256", ethaddr(bytes(recipient)), accstr(sender), amount.Amount, 0)
 
 //@ func (k Keeper).EncodeOracleAttestationData(queryId, value, timestamp, aggregatePower, previousTimestamp, nextTimestamp, valsetCheckpoint, attestationTimestamp) (digest, err)
@@ -260,7 +261,6 @@ package keeper
 
 // ---- the aggregate published for a withdrawal (C14, C15) ----
 //@ func (k Keeper).CreateWithdrawalAggregate(goCtx, amount, sender, recipient, withdrawalId) (aggregate, err)
-//@ requires [amount_fits_uint64] amount.Amount >= 0 && amount.Amount < 18446744073709551616
 //@ requires [bonded_total_fits_uint64] staking.bonded >= 0 && staking.bonded < 18446744073709551616
 //@ ensures [published_under_the_withdrawal_query_id] err == nil ==> aggregate != nil && bytes(aggregate.QueryId) == keccak(abienc("string,bytes", "TRBBridge", abienc("bool,uint256", false, withdrawalId)))
 //@ ensures [value_encodes_recipient_sender_and_amount] err == nil ==> hexdec(aggregate.AggregateValue) == abienc("address,string,uint256,uint256", ethaddr(bytes(recipient)), accstr(sender), amount.Amount, 0) && ishexbytes(aggregate.AggregateValue)
